@@ -2,7 +2,7 @@ SPECIFICATION Spec
 CONSTANTS
   Bytes = {0, 62, 63, 251, 255, 65}
   MaxLen = 4
-  RandLens = {5, 6, 7, 8, 9, 10, 11, 12, 13, 14, 15, 16, 17, 18, 19, 20, 21, 22, 23, 24, 31, 32, 33, 47, 48, 49, 64, 100}
-INVARIANTS RoundTrip RoundTripNoPad LenLaw DecLenLaw PadLaw Canonical JunkIsJunk TolerantIgnoresJunk FilterLaw
+  RandLens = {5, 6, 7, 8, 9, 10, 11, 12, 13, 14, 15, 16, 17, 18, 19, 20, 21, 22, 23, 24, 31, 32, 33, 47, 49, 64, 100}
+INVARIANTS RoundTrip RoundTripNoPad LenLaw DecLenLaw PadLaw Canonical TolerantIgnoresJunk FilterLaw
 CONSTRAINT Emit
 CHECK_DEADLOCK FALSE
